@@ -261,9 +261,11 @@ func ruleR046(c *Ctx) {
 			var S *bform
 			startText := ""
 			exact := true
+			var sGuards []Guard // the start test as branch outcomes (for the exact analysis)
 			if start != nil {
 				S = toForm(c, info, start, startParam)
 				startText = nodeStr(c.Fset, start)
+				sGuards = []Guard{{Cond: start, Val: true}}
 			} else {
 				// guard form: if !START { return nil, false }; return func(r) bool {...}, true. The start test is the
 				// conjunction of the branch outcomes that dominate the one return of a literal.
@@ -284,6 +286,7 @@ func ruleR046(c *Ctx) {
 						if gd.Synth || gd.Derived {
 							continue
 						}
+						sGuards = append(sGuards, gd)
 						f := toForm(c, info, gd.Cond, startParam)
 						t := nodeStr(c.Fset, gd.Cond)
 						if !gd.Val {
@@ -330,6 +333,56 @@ func ruleR046(c *Ctx) {
 			if cont == nil {
 				c.Undecided(key, lit.Pos(), "no returned predicate")
 				continue
+			}
+			// exact analysis over code point sets where every condition can be read as a set of runes (unicode tables,
+			// comparisons, constant tables, predicates of the package); conditions that do not mention the rune are false
+			// for the first rune of a token (the closure's state is still initial). Falls back to the propositional check.
+			if len(sGuards) > 0 {
+				ps := &runePred{c: c, pkg: root, v: startParam, assume: map[string]bool{}}
+				sSet := rsAll()
+				for _, gd := range sGuards {
+					set := ps.eval(gd.Cond)
+					if !gd.Val {
+						set = rsComplement(set)
+					}
+					sSet = rsIntersect(sSet, set)
+				}
+				assume := map[string]bool{}
+				ast.Inspect(cont, func(y ast.Node) bool {
+					e, ok := y.(ast.Expr)
+					if !ok {
+						return true
+					}
+					switch e.(type) {
+					case *ast.BinaryExpr, *ast.CallExpr:
+						if bt, ok := info.TypeOf(e).Underlying().(*types.Basic); ok && bt.Info()&types.IsBoolean != 0 && !mentions(info, e, contParam) {
+							assume[nodeStr(c.Fset, e)] = false
+							return false
+						}
+					}
+					return true
+				})
+				pc := &runePred{c: c, pkg: root, v: contParam, assume: assume}
+				cSet := pc.eval(cont)
+				if ps.fail == "" && pc.fail == "" {
+					var hSet runeSet
+					for hk := range handled {
+						var hv int
+						if _, err := fmt.Sscanf(hk, "%d", &hv); err == nil {
+							hSet = append(hSet, runeIv{rune(hv), rune(hv)})
+						}
+					}
+					hSet = rsNorm(hSet)
+					witnessSet := rsMinus(rsMinus(sSet, hSet), cSet)
+					if len(witnessSet) == 0 {
+						c.OK(key, fd.Pos(), "over all code points: every rune the start test (%s) accepts and the tokenizer does not handle itself is accepted by the continuation predicate", startText)
+					} else if !exact {
+						c.Undecided(key, fd.Pos(), "the literal is returned on several paths, the start test is not a conjunction of branch outcomes")
+					} else {
+						c.Violation(key, fd.Pos(), "the start test %s accepts runes that the continuation predicate rejects (%s): the tokenizer then emits an empty token without consuming the rune and never terminates", startText, rsString(witnessSet, 8))
+					}
+					continue
+				}
 			}
 			C := toForm(c, info, cont, contParam)
 			atomSet := map[string]bool{}
